@@ -10,7 +10,8 @@ EXPLANATION = ("Structural necessary conditions of the round-trip law: VarInt::s
                "pairs of FrameKind, StreamKind, SettingId map the same constants in both directions; writer sequence == write_size terms == reader "
                "sequence for Frame, StreamHeader and Datagram (field by field); write_async == write; a too-small destination is untouched "
                "(the first put_* is dominated by capacity >= write_size); SETTINGS entries are [varint id, varint value] on both sides; "
-               "QPACK prefix-integer constants, representation patterns and the static table are shared by encoder and decoder.")
+               "QPACK prefix-integer constants, representation patterns and the static table are shared by encoder and decoder."
+               ' Also (C14-R7/R8/R9): async writers keep their cursor in the future and hand poll_write exactly the unwritten rest; driver-level datagram decode/encode use the quarter stream id and the consumed-bytes offset; cursor accessors mean what the guards assume (capacity = room left).')
 NOT_DECIDED = ["the universally quantified value-level round-trip law itself", "octets' varint codec (external)"]
 TRUSTED = ["rustc MIR", "octets put_varint/get_varint are inverse and use the shortest form for the length chosen by VarInt::size's thresholds"]
 
